@@ -647,8 +647,11 @@ func (s *MemoryStore) Dequeue(req DequeueRequest) (DequeueResponse, error) {
 			now = s.nowFn()
 		}
 
-		s.requeueExpiredLeasesLocked(now)
+		// Prune before releasing expired leases, as the SQLite store does: a
+		// message whose lease just ran out is offered again rather than pruned
+		// in the same call.
 		s.maybePruneLocked(now)
+		s.requeueExpiredLeasesLocked(now)
 
 		var out []Envelope
 		for _, id := range s.order {
